@@ -55,6 +55,9 @@ func emptinessTest(b *ssa.BasicBlock, recv ssa.Value) (f *types.Var, full *ssa.B
 }
 
 func checkC16(p *Program, r *Report) {
+	// round 6 (systematic): no unguarded mutable package-level state behind this property's functions (§2.9)
+	sharedStateRule(p, r, NewEffects(p), "C16.shared", []string{"block.go", "tx.go"})
+	r.Floor("C16.shared", 0)
 	handedOutHashRule(p, r, "C16.frozen")
 	r.Floor("C16.frozen", 0)
 	r.Explain = "C16.writers: every memo field of bchutil.Block / bchutil.Tx (cached hash, serialised bytes, wrapped-transaction cache, completion flag) is stored only " +
